@@ -577,6 +577,10 @@ package table
 //@ func UpdatePathAttrs4ByteAs
 //@   math-int
 //@   claims inv-init inv-keep step at-call
+// from C11 (the packers budget from Len(), the stored Length): an AS_PATH whose segments were widened to 4-octet
+// members is rebuilt by the constructor, which recomputes Length and the extended-length flag (called() is per
+// iteration of loop 0)
+//@   loop 0 step typeOf(attr) == (*bgp.PathAttributeAsPath) ==> called(bgp.NewPathAttributeAsPath)
 //@   loop 3 invariant asLen >= 0
 //@   loop 4 invariant as4Len >= 0
 //@   loop 5 invariant keepNum >= 0 && keepNum + as4Len <= asLen
